@@ -273,10 +273,10 @@ def length(style, name, value, font_size=None, pixels_only=False):
     """Compute a length ``value``."""
     if value in ('auto', 'content', 'from-font'):
         return value
-    if value.value == 0:
+    unit = value.unit
+    if value.value == 0 and unit != '%':
         return 0 if pixels_only else ZERO_PIXELS
 
-    unit = value.unit
     if unit == 'px':
         return value.value if pixels_only else value
     elif unit in LENGTHS_TO_PIXELS:
